@@ -1215,13 +1215,26 @@ macro_rules! conc_prop {
             fn id(&self) -> &'static str {
                 $id
             }
+            fn engine(&self) -> &'static str {
+                "asim + tsim (shuttle)"
+            }
             fn gen(&self, rng: &mut Rng, _t: Tier) -> Value {
+                // one run in eight drives the breaker from several threads (engine B)
+                if rng.chance(1, 8) {
+                    return serde_json::to_value(super::svcthreads::gen_cb(rng)).unwrap();
+                }
                 serde_json::to_value(gen3(rng, $bias)).unwrap()
             }
             fn valid(&self, v: &Value) -> bool {
+                if super::svcthreads::is_threads(v) {
+                    return super::svcthreads::valid_json(v) && matches!(parse::<super::svcthreads::ScnT>(v).map(|s| s.kind), Some(super::svcthreads::Kind::Breaker { .. }));
+                }
                 parse::<Scn3>(v).map(|s| valid3(&s)).unwrap_or(false)
             }
             fn run(&self, v: &Value, ctx: &mut RunCtx) -> RunOutput {
+                if super::svcthreads::is_threads(v) {
+                    return super::svcthreads::run_json(v, ctx, $id);
+                }
                 run3(&parse::<Scn3>(v).unwrap(), ctx, $id)
             }
             fn runs(&self, t: Tier) -> u64 {
